@@ -248,6 +248,9 @@ func vsGenC29(r *sim.Rand, tier string) *sim.Case {
 		g.keys = append(g.keys, vsKeyPool[i])
 	}
 	c.Cfg["keys"] = int64(nkeys)
+	// 0 = embedded backend on a real NoKV.DB, 1 = raftBackend over the ideal
+	// single-region store of sistore_test.go (no database).
+	c.Cfg["backend"] = int64(r.Pick(0, 0, 0, 1))
 	// Opening the database dominates the cost of a run (NoKV zeroes a 128 MiB
 	// arena per memtable whatever the options say), so sequences are long.
 	n := 30 + r.Intn(170)
@@ -352,6 +355,7 @@ type vsC29 struct {
 	// lastIO is the fake time of the last byte exchanged on conn.
 	lastIO  time.Time
 	stopped bool
+	backend string
 }
 
 // The gateway closes a connection that stays silent for five minutes (Redis
@@ -543,6 +547,10 @@ func vsErrCause(text string) string {
 
 func (x *vsC29) check(p vsPending, got vsReply, t0, t1 int64) int {
 	res := x.res
+	var delDups, delExpired, delBoth int64 = -1, -1, -1
+	if vsCmdName(p.args) == "DEL" && len(p.args) > 1 {
+		delDups, delExpired, delBoth = x.model.delVariants(p.args, t0, t1)
+	}
 	exp := x.model.apply(p.args, t0, t1)
 	res.Trace.Add("%d %s -> %s @%dms", p.step, vsShort(vsPackArgs(p.args)), got, t0/1000-946684800000)
 	name := vsCmdName(p.args)
@@ -588,7 +596,7 @@ func (x *vsC29) check(p vsPending, got vsReply, t0, t1 int64) int {
 		}
 		return vsOK
 	}
-	sig := map[string]string{"cmd": name, "expected": vsKindName(exp.rep.Kind), "got": vsKindName(got.Kind)}
+	sig := map[string]string{"cmd": name, "expected": vsKindName(exp.rep.Kind), "got": vsKindName(got.Kind), "backend": x.backend}
 	cause := "value"
 	switch {
 	case got.Kind == '-' && exp.rep.Kind != '-':
@@ -609,6 +617,19 @@ func (x *vsC29) check(p vsPending, got vsReply, t0, t1 int64) int {
 	}
 	if vsOnlyEmptyAsNil(exp.rep, got) {
 		cause = "empty_value_as_nil"
+	}
+	if name == "DEL" && got.Kind == ':' && exp.rep.Kind == ':' && got.Int > exp.rep.Int {
+		// delExpired/delBoth over-approximate: a stale key may have been cleaned
+		// up by an earlier read, so anything up to those counts is explained.
+		stale := delExpired - exp.rep.Int
+		switch {
+		case delDups > exp.rep.Int && got.Int == delDups:
+			cause = "duplicate_keys_counted"
+		case got.Int <= exp.rep.Int+stale:
+			cause = "expired_keys_counted"
+		case got.Int <= delBoth:
+			cause = "duplicate_and_expired_keys_counted"
+		}
 	}
 	sig["cause"] = cause
 	want := exp.rep.String()
@@ -684,13 +705,22 @@ func vsExecC29(t *testing.T, c *sim.Case) *sim.Result {
 	res := sim.NewResult()
 	vsOptOnce.Do(vsCaptureMainOptions)
 	synctest.Test(t, func(t *testing.T) {
-		w, err := vsOpenWorld(c, res, nil)
-		if err != nil {
-			res.Violate(0, "open_failed", nil, "%v", err)
-			return
+		var w *vsWorld
+		backend := "embedded"
+		if c.CfgInt("backend", 0) == 1 {
+			backend = "raft"
+			store := vsNewSIStore(nil)
+			w = &vsWorld{c: c, res: res, srv: newServer(&raftBackend{client: store, ts: store})}
+		} else {
+			var err error
+			w, err = vsOpenWorld(c, res, nil)
+			if err != nil {
+				res.Violate(0, "open_failed", nil, "%v", err)
+				return
+			}
+			defer w.close()
 		}
-		defer w.close()
-		x := &vsC29{w: w, res: res, model: vsNewModel(), seen: map[string]bool{}}
+		x := &vsC29{w: w, res: res, model: vsNewModel(), seen: map[string]bool{}, backend: backend}
 		for i, op := range c.Ops {
 			if x.stopped {
 				break
@@ -725,7 +755,7 @@ func vsExecC29(t *testing.T, c *sim.Case) *sim.Result {
 				} else {
 					p.wire = vsEncode(args)
 				}
-				timeSensitive := vsHasExpireOption(args) || x.model.hasExpiry(keys)
+				timeSensitive := vsHasExpireOption(args) || x.model.hasExpiry(keys, vsNowMicro())
 				alone := timeSensitive || vsCmdName(args) == "QUIT" || len(p.wire) > 2048
 				if alone {
 					x.flush()
